@@ -17,7 +17,7 @@ KIDS = {
     'E1': None, 'E2': None,                      # the same, every character written as a numeric character reference (raw differs from value)
     'hi': 'hi', 'sp': ' a  b ', 'nl': '\n  foo\n  ', 'blank': '\n   \n',
     'id': '{{v1}}', 'un': '{{u9}}', 'call': '{{f1(v2)}}', 'arrow': '{{() => v1}}', 'fn': '{{function () {{ return v2 }}}}',
-    'obj': '{{{{a: () => v2}}}}', 'lit': '{{"s"}}', 'num': '{{1}}', 'mem': '{{v1.x}}', 'cond': '{{v1 ? v2 : v3}}',
+    'obj': '{{{{a: () => v2}}}}', 'lit': '{{"s"}}', 'num': '{{1}}', 'nul': '{{null}}', 'tru': '{{true}}', 'fal': '{{false}}', 'undef': '{{undefined}}', 'void0': '{{void 0}}', 'tplk': '{{`t`}}', 'neg': '{{-1}}', 'bigi': '{{1n}}', 'rgx': '{{/x/}}', 'mem': '{{v1.x}}', 'cond': '{{v1 ? v2 : v3}}',
     'optcall': '{{f1?.(v2)}}', 'optmem': '{{v1?.x}}', 'optmcall': '{{v1.m?.()}}', 'newx': '{{new C1(v2)}}', 'tagged': '{{f1`t`}}', 'await': '{{(async () => await f1())()}}', 'paren': '{{(f1(v1))}}', 'seq': '{{(v1, f1())}}',
     'eld': '<div v-show={{v1}}>hi</div>', 'elf': '<input v-foo={{v2}}/>', 'spcall': '{{...f1(v2)}}', 'spobj': '{{...[v1, v2]}}', 'spfn': '{{...(() => [v1])()}}', 'empty': '{{}}', 'cmt': '{{/* c */}}', 'spread': '{{...v3}}', 'el': '<b/>', 'elt': '<i>x</i>', 'frag': '<>y</>', 'comp': '<C1/>',
 }
@@ -266,7 +266,7 @@ def _shape(env, kids):
 
 COMP_HOSTS = ['Foo', 'C1', 'mem', 'memtag', 'memsvg', 'memdeep']       # a member expression is a component host whatever its last segment spells
 ELEM_HOSTS = ['div', 'frag', 'KeepAlive', 'cust']
-ONE = ['optcall', 'optmem', 'optmcall', 'newx', 'tagged', 'paren', 'seq', 'id', 'un', 'call', 'arrow', 'fn', 'obj', 'lit', 'mem', 'cond', 'hi', 'sp', 'nl', 'blank', 'T1', 'T2', 'E1', 'E2', 'empty', 'cmt', 'spread', 'spcall', 'spobj', 'spfn', 'el', 'elt', 'eld', 'elf', 'frag', 'comp', 'num']
+ONE = ['nul', 'tru', 'fal', 'undef', 'void0', 'tplk', 'neg', 'bigi', 'rgx', 'optcall', 'optmem', 'optmcall', 'newx', 'tagged', 'paren', 'seq', 'id', 'un', 'call', 'arrow', 'fn', 'obj', 'lit', 'mem', 'cond', 'hi', 'sp', 'nl', 'blank', 'T1', 'T2', 'E1', 'E2', 'empty', 'cmt', 'spread', 'spcall', 'spobj', 'spfn', 'el', 'elt', 'eld', 'elf', 'frag', 'comp', 'num']
 
 
 def kid_jobs(tier, hosts, vslots_for):
@@ -278,7 +278,7 @@ def kid_jobs(tier, hosts, vslots_for):
                 out.append({'host': h, 'kids': [], 'vslots': vs})
             for k in ONE:
                 out.append({'host': h, 'kids': [k], 'vslots': vs})
-        pal2 = ['id', 'call', 'arrow', 'obj', 'hi', 'T2', 'E2', 'empty', 'spread', 'el', 'nl'] if tier == 'quick' else ONE
+        pal2 = ['id', 'call', 'arrow', 'obj', 'hi', 'T2', 'E2', 'empty', 'spread', 'el', 'nl', 'nul', 'fal'] if tier == 'quick' else ONE
         for a, b in itertools.product(pal2, repeat=2):
             if _adjacent_text(a, b):
                 continue
